@@ -27,6 +27,12 @@ def gen(ctx):
     for _ in range(n):
         docs = [G.rand_doc(rng, 3) for _ in range(rng.randrange(2, 5))]
         pool = [G.spell(rng, eg.expr()) for _ in range(4)] + ["a.", "sort_by(@, &a)", "[*].abs(@)", "length(@)", "@", "foo[?bar > `1`].baz | [0]"]
+        # builtins on the current node, on a member, on an expression reference and on a literal: a function that remembers anything between
+        # calls (interned results, memo tables keyed too coarsely) shows up as a result that depends on what ran before
+        fn = rng.choice(G.BUILTINS)
+        pool += [t.replace("F", fn) for t in rng.sample(["F(@)", "F(a)", "F(&a)", "F(`null`)", "F(@, &a)", "F(&a, @)", "[F(@), F(&a), F(`null`)]",
+                                                          "F('x')", "F(`[]`)", "F(`{}`)", "F(@, @)", "[*].F(@)"], 4)]
+        pool += ["type(@)", "type(&a)"] if rng.random() < 0.3 else []
         # respellings of the same expressions that differ only in insignificant whitespace (a memo keyed on a normalised text would
         # hand back the tree — and the offsets — of another spelling, depending on what was compiled before)
         pool += [rng.choice([" ", "  ", "\t", "\n"]) + p for p in rng.sample(pool, 3)] + [p + rng.choice([" ", "\n "]) for p in rng.sample(pool, 2)]
